@@ -158,6 +158,14 @@ def check(ctx, report):
     name_value_composers(ctx, report, rule='C01.R7')
     from .c08 import txt_chunks
     txt_chunks(ctx, report, rule='C01.R8')
+    # the client hello folds two signalling cipher suites into flags: parse and compose evaluated over every short suite sequence
+    # (shared with C05.R3) - what the parser turns into a flag is what the composer writes for that flag, defaults included
+    report.rule('C01.R10', 'client hello: signalling cipher suites folded by the parser are the ones the composer unfolds (flags, defaults, order)')
+    from .c05 import scsv_tabulation
+    hello = model.try_cls('TlsHandshakeClientHello')
+    if hello is not None and hello.methods.get('_parse') is not None and hello.methods.get('compose') is not None:
+        if not scsv_tabulation(ctx, report, hello, hello.methods['_parse'], hello.methods['compose'], RULE='C01.R10'):
+            report.undecided.append('C01.R10: the client hello left the subset the tabulation understands (C05.R3 reads its shape)')
     equality(ctx, report)
     if 'SslRecord' in reviewed and reviewed['SslRecord'].get('strip_header'):
         # the header left out of the element-wise comparison above
